@@ -181,6 +181,23 @@ let run_cnt id rest =
      | _ -> id ^ " panic")
   | _ -> id ^ " bad-case"
 
+(* ---- RICE ---- *)
+let fmt_n_list (l : coq_N list) : string =
+  if l = [] then "-" else Stdlib.String.concat "," (Stdlib.List.map dec_of_n l)
+
+let run_rice id rest =
+  match split_on ' ' rest with
+  | ["F"; warmup; maxp; errs] ->
+    (match Rice.find_prc (parse_samples errs) (n_of_int (int_of_string warmup)) (n_of_int (int_of_string maxp)) with
+     | Ok pr -> Printf.sprintf "%s ok order=%d ps=%s bits=%s" id (int_of_n pr.Rice.prc_order) (fmt_n_list pr.Rice.prc_ps) (dec_of_n pr.Rice.prc_bits)
+     | _ -> id ^ " panic")
+  | ["T"; e] -> Printf.sprintf "%s ok %s" id (fmt_n_list (Rice.table_from_errors (parse_n_list e)))
+  | ["M"; a; b] -> Printf.sprintf "%s ok %s" id (fmt_n_list (Rice.table_merge (Rice.table_from_errors (parse_n_list a)) (Rice.table_from_errors (parse_n_list b))))
+  | ["Z"; maxp; e] ->
+    let (p, bits) = Rice.minimizer (Rice.table_from_errors (parse_n_list e)) (n_of_int (int_of_string maxp)) in
+    Printf.sprintf "%s ok p=%d bits=%s" id (int_of_n p) (dec_of_n bits)
+  | _ -> id ^ " bad-case"
+
 let run_line (line : string) : string =
   match split_on ' ' line with
   | stream :: id :: _ ->
@@ -192,6 +209,7 @@ let run_line (line : string) : string =
        | "ENC" -> run_enc id rest
        | "DEC" -> run_dec id rest
        | "CNT" -> run_cnt id rest
+       | "RICE" -> run_rice id rest
        | _ -> id ^ " unknown-stream")
      with Stack_overflow -> id ^ " model-stack-overflow")
   | _ -> "bad-line"
